@@ -87,3 +87,21 @@ Definition code_block_close (src : bytes) (lines : list seg) : result (list seg)
   l <- drop_trailing_blank src (rev lines) ;; Ok (rev l).
 
 End WithTables.
+
+(* ---------- specification side: what CommonMark prescribes for the content of an indented
+   code line: k columns of leading indentation are removed; a tab that is only partly used up
+   leaves blanks for its remaining columns; tabs after that stay tabs ---------- *)
+Fixpoint dedent_cols (k : nat) (l : bytes) (col : Z) : bytes :=
+  match k with
+  | O => l
+  | S k' =>
+    match l with
+    | c :: r =>
+      if N.eqb c 32 then dedent_cols k' r (col + 1)
+      else if N.eqb c 9 then
+        let w := 4 - col mod 4 in
+        if w <=? Z.of_nat k then dedent_cols (k - Z.to_nat w) r (col + w) else repeat 32%N (Z.to_nat (w - Z.of_nat k)) ++ r
+      else l
+    | [] => []
+    end
+  end.
